@@ -99,7 +99,7 @@ ls_check!(
 ls_check!(
     C10A,
     "C10a",
-    20_000,
+    14_000,
     &[Oracle::Interrupts],
     |r| gen_interrupts(r),
     "internal arm of C10 (gate/entry invariants in lockstep)"
